@@ -226,6 +226,8 @@ def stateAvailable (g : Graph) (init : Store) (t : List MEv) (i : Nat) (e : MEv)
   let st := replayStore g init (t.take i)
   let toks := match e.locs.find? (·.1 == vs.1) with | some (_, l) => l | none => []
   -- the worker's own images are always at hand
+  -- a required state nobody in the graph produces for this test is externally provided (permanent objects): taken as given
+  !((g.node n).setup.any (fun (_, vms) => vms.contains vs.1)) ||
   (storeGet st (g.worker e.w).id).contains vs ||
   toks.any (fun loc => allowedLoc g n e.w loc && (storeGet st (if loc == "" then "shared" else loc)).contains vs) ||
   excepted g t i n vs.1
@@ -283,7 +285,7 @@ def resultViolations (g : Graph) (t : List MEv) (dry : Bool) : List String :=
   let c :=
     if dry then (t.filter (fun e => e.kind == "start" || e.kind == "door")).map (fun e => "dry-run-acts:" ++ e.kind)
     else
-      let leaves := dedupNat (((List.range g.nodes.length).filter (fun n => !(g.node n).flat && (g.node n).cleanup.isEmpty && (g.node n).sets.isEmpty)).map (fun n => (g.node n).cls))
+      let leaves := dedupNat (((List.range g.nodes.length).filter (fun n => !(g.node n).flat && !(g.node n).cloneSource && (g.node n).cleanup.isEmpty && (g.node n).sets.isEmpty)).map (fun n => (g.node n).cls))
       (leaves.filter (fun c => !(t.any (fun e => e.kind == "start" && !e.pre && e.cls == c)))).map (fun c => "never-executed:class" ++ toString c)
   let d := ((t.zipIdx).filter (fun (e, i) => e.kind == "start" &&
       !((t.drop (i + 1)).any (fun f => f.kind == "end" && f.w == e.w && f.cls == e.cls && f.uid == e.uid)))).map
